@@ -202,3 +202,47 @@ func (s *Sim) doTypeLimit(o *Op) {
 	}
 	s.label("type limit reached")
 }
+
+// OpLockedRegistration: a first-time registration of a relation type is attempted in a locked
+// world (must panic), then - unlocked - a plain type is registered; relation calls naming that
+// plain component must panic like for any non-relation component.
+const OpLockedRegistration = "lockedRegistration"
+
+func (s *Sim) doLockedRegistration(o *Op) {
+	for _, b := range s.Worlds() {
+		if len(ecs.ComponentIDs(b.W)) >= ecs.MaskTotalBits-1 {
+			continue
+		}
+		relT := newTypeFor(&Op{N: 2*o.N + 100000, V: 1})
+		plainT := newTypeFor(&Op{N: 2*o.N + 100001, V: 0})
+		q := b.W.Query(ecs.All())
+		p := Call(func() { ecs.TypeID(b.W, relT) })
+		q.Close()
+		if p == nil {
+			s.Report(finding(CatIllegal, "%s: registering a new component type in a locked world did not panic", b.Name))
+			return
+		}
+		var id ecs.ID
+		if p := Call(func() { id = ecs.TypeID(b.W, plainT) }); p != nil {
+			s.Report(finding(CatIllegal, "%s: registering a component type after a rejected registration panicked: %v", b.Name, p))
+			return
+		}
+		var e ecs.Entity
+		if p := Call(func() { e = b.W.NewEntity(id) }); p != nil {
+			s.Report(finding(CatIllegal, "%s: creating an entity with a freshly registered plain component panicked: %v", b.Name, p))
+			return
+		}
+		ill := illegal("component %v is not a relation", plainT)
+		pg := Call(func() { b.W.Relations().Get(e, id) })
+		ps := Call(func() { b.W.Relations().Set(e, id, ecs.Entity{}) })
+		if p := Call(func() { b.W.RemoveEntity(e) }); p != nil {
+			s.Report(finding(CatIllegal, "%s: removing the probe entity panicked: %v", b.Name, p))
+			return
+		}
+		if pg == nil || ps == nil {
+			s.Report(finding(CatIllegal, "%s: relation call naming a plain component (registered right after a relation type was refused in a locked world) did not panic (%s): Get panicked=%v Set panicked=%v", b.Name, ill.Why, pg != nil, ps != nil))
+			return
+		}
+	}
+	s.label("registration refused under lock, then relation call on the next plain type")
+}
